@@ -1126,3 +1126,169 @@ def gen_stash_become(seed, mode="loop"):
     driven_finish(sc, steps, rng=r)
     finalize_main(sc)
     return sc
+
+
+PERM_W = dict(lifecycle=10, tell=10, publish=10, broadcast=4, pill=3, sub=10, unsub=4, fd=0, tmr=0, sgn=0, task=0, batch=0, stash=0,
+              become=0, ctx=14, retain=0, misc=1, errno=0, sleep=0, dereg=8, tb=0, thresh=0)
+
+
+def gen_perms(seed, mode="loop"):
+    """C15: modules with every subset of the deny / persist / allow-replace flags, equal names in several slots, restricted calls
+    issued from every callback kind and nesting depth"""
+    r = random.Random(seed * 43 + 23)
+    sc = Sc(mode, "perms seed=%d" % seed)
+    driven_skeleton(sc)
+    nm = r.randrange(3, 8)
+    names = ["pa", "pb", "pc", "pd"]
+    for i in range(1, nm + 1):
+        fl = 0
+        for f, pr in ((MOD_DENY_CTX, 0.3), (MOD_DENY_PUB, 0.3), (MOD_DENY_SUB, 0.3), (MOD_PERSIST, 0.25), (MOD_ALLOW_REPLACE, 0.35), (MOD_NAME_DUP, 0.15)):
+            if r.random() < pr:
+                fl |= f
+        sc.mod(i, r.choice(names), fl, r.choice([7, 7, 6, 4, 2, 0, 5]))
+    p = Prog(r, sc, PERM_W, nm, dict(p_autofree=0.2, p_sys=0.2, task_slots=[], p_oneshot=0.05))
+    sys_t = [sc.topic(t) for t in SYS_TOPICS]
+    regd = []
+    for i in range(1, nm + 1):
+        if r.random() < 0.6:
+            sc.main.append(("reg", i))
+            regd.append(i)
+            if r.random() < 0.6:
+                sc.main.append(("start", i))
+    late = [i for i in range(1, nm + 1) if i not in regd]
+
+    def extra(where, self_slot=None):
+        ops = p.op(where, self_slot)
+        x = r.random()
+        if x < 0.12:
+            ops.append(("publish", -1 if self_slot else r.randrange(1, nm + 1), r.choice(sys_t), sc.pay(), 0))
+        elif x < 0.2:
+            ops.append(("ctx_quit", 200 + r.randrange(50)) if self_slot and (sc.mods[self_slot][1] & MOD_DENY_CTX) else ("ctx_len",))
+        elif x < 0.26:
+            ops.append(("ctx_tick", 1000000) if self_slot and (sc.mods[self_slot][1] & MOD_DENY_CTX) else ("ctx_stats",))
+        elif x < 0.32 and late and where != "idle":
+            ops.append(("reg", late.pop()))
+        return ops
+    for i in range(1, nm + 1):
+        hooks = sc.mods[i][2]
+        if hooks & 1:
+            sc.cb(i, "eval", "*", extra("cb", i) if r.random() < 0.5 else [], ret=1)
+        if hooks & 2:
+            sc.cb(i, "start", "*", extra("cb", i) if r.random() < 0.7 else [], ret=1)
+        if hooks & 4:
+            sc.cb(i, "stop", "*", extra("cb", i) if r.random() < 0.7 else [])
+        for n in range(r.randrange(1, 5)):
+            sc.cb(i, "evt", n, sum((extra("cb", i) for _ in range(r.randrange(0, 3))), []))
+        sc.cb(i, "evt", "*", [])
+    steps = []
+    for k in range(r.randrange(4, 20)):
+        ops = []
+        for _ in range(r.randrange(0, 4)):
+            ops += extra("step")
+        if late and r.random() < 0.4:
+            ops.append(("reg", late.pop()))
+        steps.append(ops)
+    driven_finish(sc, steps, rng=r, quit_code=r.randrange(0, 100))
+    finalize_main(sc)
+    return sc
+
+
+CTXL_W = dict(lifecycle=14, tell=3, publish=2, broadcast=1, pill=1, sub=3, unsub=1, fd=0, tmr=0, sgn=0, task=0, batch=0, stash=0,
+              become=0, ctx=14, retain=0, misc=1, errno=0, sleep=0, dereg=10, tb=0, thresh=0)
+
+
+def gen_ctxlife(seed, mode="loop"):
+    """C07: register / deregister / finalize cycles of the thread's context with every flag combination and 0-6 modules in every
+    state mix at teardown; deregistration from the main script, from callbacks and through auto-release; calls made while the
+    thread has no context (also before the very first registration of the process)"""
+    r = random.Random(seed * 47 + 29)
+    sc = Sc(mode, "ctx_lifecycle seed=%d" % seed)
+    slot = [1]
+
+    def fresh(name, flags=0, hooks=None):
+        s_ = slot[0]
+        slot[0] += 1
+        sc.mod(s_, name, flags, r.choice([0, 4, 6, 7, 2]) if hooks is None else hooks)
+        for k in ("eval", "start"):
+            sc.cb(s_, k, "*", [], ret=1)
+        sc.cb(s_, "stop", "*", [("ctx_deregister",)] if r.random() < 0.1 else ([("ctx_len",)] if r.random() < 0.2 else []))
+        sc.cb(s_, "evt", "*", [])
+        return s_
+    no_ctx_calls = [("ctx_len",), ("ctx_name",), ("ctx_stats",), ("ctx_quit", 3), ("ctx_fd",), ("ctx_tick", 1000000), ("ctx_finalize",),
+                    ("ctx_dispatch", 1), ("ctx_loop",), ("ctx_deregister",), ("ctx_userdata",)]
+    if r.random() < 0.5:
+        sc.main += r.sample(no_ctx_calls, r.randrange(1, 6))        # fresh process: before any registration
+        if r.random() < 0.5:
+            s_ = fresh("early")
+            sc.main.append(("reg", s_))
+    zombies = []
+    with_loop = r.random() < 0.35
+    cycles = r.randrange(1, 4)
+    for cy in range(cycles):
+        flags = r.choice([0, 0, CTX_PERSIST, CTX_NAME_DUP, CTX_NAME_AUTOFREE, CTX_UD_AUTOFREE, CTX_PERSIST | CTX_NAME_DUP | CTX_UD_AUTOFREE, CTX_NAME_DUP | CTX_NAME_AUTOFREE])
+        sc.main.append(("ctx_register", r.choice([0, 1, 3, 2 if r.random() < 0.3 else 0]), flags))
+        if r.random() < 0.5:
+            sc.main.append(("ctx_register", r.choice([0, 1]), r.choice([0, CTX_PERSIST])))       # second one: -EEXIST
+        mods = []
+        for _ in range(r.randrange(0, 7)):
+            s_ = fresh("c%dm%d" % (cy, len(mods)), r.choice([0, 0, MOD_NAME_DUP, MOD_UD_AUTOFREE, MOD_PERSIST]))
+            sc.main.append(("reg", s_))
+            mods.append(s_)
+            x = r.random()
+            if x < 0.45:
+                sc.main.append(("start", s_))
+            elif x < 0.6:
+                sc.main += [("start", s_), ("pause", s_)]
+            elif x < 0.7:
+                sc.main += [("start", s_), ("stop", s_)]
+        if r.random() < 0.2:
+            sc.main.append(("ctx_finalize",))
+            s_ = fresh("late%d" % cy)
+            sc.main.append(("reg", s_))
+            mods.append(s_)
+        for _ in range(r.randrange(0, 5)):
+            if mods:
+                sc.main.append((r.choice(["start", "stop", "pause", "resume", "srclen"]), r.choice(mods)))
+        if with_loop and cy == 0 and mods:
+            # one dispatch-driven loop phase: a looping context refuses deregistration; the last module leaving a looping
+            # non-persistent context releases it when the loop returns
+            sc.main.append(("ctx_dispatch", 1))
+            sc.main += [("ctx_deregister",), ("ctx_dispatch", 1)]
+            if r.random() < 0.5:
+                for m in mods:
+                    sc.main.append(("dereg", m))
+                sc.main.append(("ctx_dispatch", 1))
+                sc.main.append(("ctx_dispatch_until", 6, 0))
+            else:
+                sc.main += [("ctx_quit", 9), ("ctx_dispatch_until", 6, 0)]
+        end = r.random()
+        if end < 0.45:
+            sc.main.append(("ctx_deregister",))
+        elif end < 0.8:
+            order = list(mods)
+            r.shuffle(order)
+            for m in order:
+                sc.main.append(("dereg", m))
+            sc.main.append(("ctx_deregister",))          # needed for persistent ones, refused (-EPIPE) when auto-released
+        else:
+            order = list(mods)
+            r.shuffle(order)
+            for m in order[:len(order) // 2]:
+                sc.main.append(("dereg", m))
+            sc.main.append(("ctx_deregister",))
+        zombies += mods
+        # calls on retained handles / context API while the thread has no context
+        for _ in range(r.randrange(0, 4)):
+            if zombies and r.random() < 0.6:
+                sc.main.append((r.choice(["start", "stop", "srclen", "nameof", "dereg"]), r.choice(zombies)))
+            else:
+                sc.main.append(r.choice(no_ctx_calls))
+    sc.main.append(("ctx_deregister",))
+    order = list(range(1, slot[0]))
+    r.shuffle(order)
+    for s_ in order:
+        sc.main.append(("obs_drop", s_))
+    sc.main.append(("quiesce",))
+    sc.meta["max_ufd"] = 1
+    finalize_main(sc)
+    return sc
